@@ -52,14 +52,24 @@ def rand_bound(rng, has_param):
     return ("*", ("c", rng.choice([F(2), F(1, 2), F(3, 2)])), leaf)
 
 
-def rand_cond(rng, has_param):
+def rand_cond(rng, has_param, init=None):
+    """a literal; with an initial state given, biased (70%) towards literals that hold in it, so that short valid
+    plans exist"""
+    def ival(fl, arg):
+        v = init[fl]
+        return v if arg is None else v[0 if arg == ("p",) else arg[1]]
+    bias = init is not None and rng.random() < 0.7
     if rng.random() < 0.6:
         fl = rng.choice(["b0", "b1", "p"])
         arg = None if fl != "p" else (("p",) if has_param and rng.random() < 0.7 else ("o", rng.randrange(2)))
-        return ("b", fl, arg, rng.random() < 0.6)
+        return ("b", fl, arg, ival(fl, arg) if bias else rng.random() < 0.6)
     fl = rng.choice(["n0", "n1", "lvl"])
     arg = None if fl != "lvl" else (("p",) if has_param and rng.random() < 0.7 else ("o", rng.randrange(2)))
-    return (rng.choice(["ge", "le"]), fl, arg, F(rng.randint(0, 6)))
+    k = rng.choice(["ge", "le"])
+    c = F(rng.randint(0, 6))
+    if bias:
+        c = ival(fl, arg) - rng.randint(0, 2) if k == "ge" else ival(fl, arg) + rng.randint(0, 2)
+    return (k, fl, arg, c)
 
 
 def rand_eff(rng, has_param):
@@ -77,6 +87,10 @@ def rand_eff(rng, has_param):
 
 
 def rand_spec(rng, idx):
+    init = {"b0": rng.random() < 0.5, "b1": rng.random() < 0.5,
+            "p": [rng.random() < 0.5, rng.random() < 0.5],
+            "n0": rng.choice([F(1), F(2), F(3), F(5, 2)]), "n1": F(rng.randint(0, 4)),
+            "lvl": [rng.choice([F(1), F(2), F(7, 2)]), rng.choice([F(1), F(3), F(1, 2)])]}
     acts = []
     for a in range(rng.randint(2, 3)):
         has_param = rng.random() < 0.5
@@ -89,10 +103,10 @@ def rand_spec(rng, idx):
                 act["lo"], act["hi"], act["lopen"], act["ropen"] = lo, lo, False, False
             else:
                 act["lo"], act["hi"] = lo, ("+", lo, ("c", rng.choice([F(1), F(2), F(5, 2), F(5)])))
-                act["lopen"], act["ropen"] = rng.random() < 0.5, rng.random() < 0.4
+                act["lopen"], act["ropen"] = rng.choice([(False, False), (True, False), (True, False), (False, True), (True, True)])
             wheres = ["start", "start", "end", "cc", "oc", "co", "oo"]
-            for _ in range(rng.randint(0, 3)):
-                act["conds"].append((rng.choice(wheres), rand_cond(rng, has_param)))
+            for _ in range(rng.randint(0, 2)):
+                act["conds"].append((rng.choice(wheres), rand_cond(rng, has_param, init)))
             seen = set()
             for _ in range(rng.randint(1, 3)):
                 w, e = rng.choice(["start", "end", "end"]), rand_eff(rng, has_param)
@@ -102,7 +116,7 @@ def rand_spec(rng, idx):
                 act["effs"].append((w, e))
         else:
             for _ in range(rng.randint(0, 2)):
-                act["conds"].append(("start", rand_cond(rng, has_param)))
+                act["conds"].append(("start", rand_cond(rng, has_param, init)))
             seen = set()
             for _ in range(rng.randint(1, 2)):
                 e = rand_eff(rng, has_param)
@@ -111,10 +125,6 @@ def rand_spec(rng, idx):
                 seen.add(e[1])
                 act["effs"].append(("start", e))
         acts.append(act)
-    init = {"b0": rng.random() < 0.5, "b1": rng.random() < 0.5,
-            "p": [rng.random() < 0.5, rng.random() < 0.5],
-            "n0": rng.choice([F(1), F(2), F(3), F(5, 2)]), "n1": F(rng.randint(0, 4)),
-            "lvl": [rng.choice([F(1), F(2), F(7, 2)]), rng.choice([F(1), F(3), F(1, 2)])]}
     goal = None
     if rng.random() < 0.5:
         goal = rand_cond(rng, False)
@@ -157,6 +167,33 @@ def apply_effs(st, effs, param):
         else:
             new[key] = st[key] - v
     return new
+
+
+def alias_start_end(spec, ai, param):
+    """This instance has a start effect and an end effect / end or over-all condition on the SAME ground fluent written
+    with DIFFERENT lifted arguments (p(o1) at start, p(x) with x=o1 at end): the lifted substitution of
+    TimedToSequential._compile does not see that they coincide (open finding F28-lifted-alias)."""
+    if param is None:
+        return False
+    act = spec["acts"][ai]
+    starts = [(e[1], e[2]) for (w, e) in act["effs"] if w == "start"]
+    later = [(e[1], e[2]) for (w, e) in act["effs"] if w == "end"]
+    later += [(c[1], c[2]) for (w, c) in act["conds"] if w != "start"]
+    return any(f1 == f2 and a1 != a2 and garg(a1, param) == garg(a2, param)
+               for (f1, a1) in starts for (f2, a2) in later)
+
+
+def directed_alias_spec(idx):
+    """minimal instance of the open finding, run in every tier so that the finding stays visible"""
+    return {"idx": idx, "acts": [
+        {"name": "act0", "kind": "dur", "param": True, "conds": [],
+         "effs": [("start", ("setb", "p", ("o", 1), True)), ("end", ("setb", "p", ("p",), False))],
+         "lo": ("c", F(2)), "hi": ("c", F(2)), "lopen": False, "ropen": False},
+        {"name": "act1", "kind": "dur", "param": False, "conds": [("start", ("b", "p", ("o", 1), True))],
+         "effs": [("end", ("setb", "b0", None, True))],
+         "lo": ("c", F(1)), "hi": ("c", F(3)), "lopen": True, "ropen": False}],
+        "init": {"b0": False, "b1": False, "p": [True, True], "n0": F(1), "n1": F(0), "lvl": [F(1), F(1)]},
+        "goal": None, "epsilon": None, "prune": True}
 
 
 def step_state(spec, st, ai, param):
@@ -368,7 +405,7 @@ def run(ctx):
 
     ok_proofs = ctx.check_props(extra=["theories/Corr/Corr_C28.v"])
     rng = ctx.rng
-    n_problems = 24 if ctx.quick else 220
+    n_problems = 40 if ctx.quick else 200
     maxlen = 2 if ctx.quick else 3
     stats = Counter()
     stats["epsilon_zero_setter"] = epsilon_zero_probe(ctx)
@@ -379,7 +416,7 @@ def run(ctx):
     attempts = 0
     while stats["problems"] < n_problems and attempts < 6 * n_problems:
         attempts += 1
-        spec = rand_spec(rng, pi)
+        spec = directed_alias_spec(pi) if pi == 0 else rand_spec(rng, pi)
         try:
             built = build(spec)
         except Exception as e:       # a generated problem the API or the compiler refuses: not an input of the property
@@ -413,12 +450,12 @@ def run(ctx):
                 state_mismatch = None
                 for (ai, param), inst in zip(seq, sp.actions):
                     for (name, arg), v in st.items():
-                        if name in NUM:
-                            fe = fl[name]() if arg is None else fl[name](objs[arg])
-                            if fe.fluent() in cp.fluents:
-                                rv = F(rst.get_value(fe).constant_value())
-                                if rv != v:
-                                    state_mismatch = (name, arg, str(v), str(rv))
+                        fe = fl[name]() if arg is None else fl[name](objs[arg])
+                        if fe.fluent() in cp.fluents:
+                            rv = rst.get_value(fe)
+                            rv = F(rv.constant_value()) if name in NUM else rv.bool_constant_value()
+                            if rv != v:
+                                state_mismatch = (name, arg, str(v), str(rv))
                     steps.append((ai, param, st))
                     st = step_state(spec, st, ai, param)
                     rst = sim.apply(rst, inst)
@@ -442,6 +479,11 @@ def run(ctx):
                      "states": [dump({"%s(%s)" % k: v for k, v in s.items() if k[0] in NUM}) for (_, _, s) in steps]}
                 kinds = [spec["acts"][ai] for ai, _ in seq]
                 tags = ["t2s"]
+                aliased = any(alias_start_end(spec, ai, param) for ai, param in seq)
+                if aliased:
+                    tags.append("alias-start-end")
+                    stats["plans_with_lifted_alias"] += 1
+                m["state_mismatch"] = state_mismatch
                 for a_ in kinds:
                     if a_["kind"] == "dur":
                         tags.append("interval-%s%s" % ("o" if a_["lopen"] else "c", "o" if a_["ropen"] else "c"))
@@ -451,7 +493,9 @@ def run(ctx):
                     else:
                         stats["steps_instantaneous"] += 1
                 stats["valid_compiled_plans_len_%d" % n] += 1
-                if state_mismatch:
+                if state_mismatch and aliased:
+                    stats["state_mismatch_under_known_alias"] += 1      # the finding itself; reported below if it matters
+                elif state_mismatch:
                     ctx.fail("oracle", "C28 harness: the exact interpreter and UPSequentialSimulator disagree on a state %r"
                              % (state_mismatch,), tags + ["state-mismatch"], m, False)
                 if verdict != "VALID":
